@@ -42,15 +42,31 @@ import (
 )
 
 type lpSpec struct {
-	mutex string // field name of the mutex
-	field string // field it guards ("" = none)
-	call  string // method whose calls are recorded as `select` ("" = none)
+	mutex string   // field name of the mutex
+	more  []string // further mutexes (lock-order run): their operations are recorded as op@1, op@2, …, those of mutex as op@0
+	field string   // field it guards ("" = none)
+	call  string   // method whose calls are recorded as `select` ("" = none)
 }
 
 var (
 	lpSelector = lpSpec{mutex: "selectorMutex", field: "ipSelector", call: "Select"}
 	lpZmq      = lpSpec{mutex: "zmqMutex"}
+	// both mutexes in one program, lock operations only: which lock is requested while which is held
+	lpOrder = lpSpec{mutex: "selectorMutex", more: []string{"zmqMutex"}}
 )
+
+// mutexIndex: 0 for the spec's mutex, k for more[k-1], -1 for any other name.
+func (sp lpSpec) mutexIndex(name string) int {
+	if name == sp.mutex {
+		return 0
+	}
+	for i, m := range sp.more {
+		if m == name {
+			return i + 1
+		}
+	}
+	return -1
+}
 
 type lpState struct {
 	ops    []string
@@ -186,7 +202,7 @@ func lpLockOpOf(method string) string {
 }
 
 func (x *lpEx) isSite(e *ast.SelectorExpr) bool {
-	return e.Sel.Name == x.spec.mutex || (x.spec.field != "" && e.Sel.Name == x.spec.field)
+	return x.spec.mutexIndex(e.Sel.Name) >= 0 || (x.spec.field != "" && e.Sel.Name == x.spec.field)
 }
 
 // declType: the declared type name of an identifier that is a receiver or a parameter; "" otherwise.
@@ -403,11 +419,14 @@ func (x *lpEx) expr(e ast.Node, in []lpState) []lpState {
 	case *ast.CallExpr:
 		if se, ok := v.Fun.(*ast.SelectorExpr); ok {
 			// mutex operation
-			if inner, ok := se.X.(*ast.SelectorExpr); ok && inner.Sel.Name == x.spec.mutex && !x.isFresh(inner.X) {
+			if inner, ok := se.X.(*ast.SelectorExpr); ok && x.spec.mutexIndex(inner.Sel.Name) >= 0 && !x.isFresh(inner.X) {
 				op := lpLockOpOf(se.Sel.Name)
 				if op == "" {
 					x.fail(v, "unsupported operation on the mutex: "+se.Sel.Name)
 					return in
+				}
+				if len(x.spec.more) > 0 {
+					op = fmt.Sprintf("%s@%d", op, x.spec.mutexIndex(inner.Sel.Name))
 				}
 				in = x.expr(inner.X, in)
 				x.visited[inner.Pos()] = true
@@ -442,7 +461,7 @@ func (x *lpEx) expr(e ast.Node, in []lpState) []lpState {
 		if x.isSite(v) && x.isFresh(v.X) {
 			return in
 		}
-		if v.Sel.Name == x.spec.mutex {
+		if x.spec.mutexIndex(v.Sel.Name) >= 0 {
 			x.fail(v, "the mutex is used other than through RLock/RUnlock/Lock/Unlock")
 			return in
 		}
@@ -766,7 +785,7 @@ type lpCov struct {
 }
 
 func (x *lpEx) coverage() ([]lpCov, []string) {
-	names := []string{x.spec.mutex}
+	names := append([]string{x.spec.mutex}, x.spec.more...)
 	if x.spec.field != "" {
 		names = append(names, x.spec.field)
 	}
@@ -862,6 +881,29 @@ func lpLean(paths []lpPath) string {
 	return b.String()
 }
 
+func lpLeanOrder(paths []lpPath) string {
+	var b strings.Builder
+	seen := map[string]bool{}
+	var rows []string
+	for _, p := range paths {
+		var ops []string
+		for _, o := range p.ops {
+			i := strings.Index(o, "@")
+			ops = append(ops, fmt.Sprintf("(%s, .%s)", o[i+1:], o[:i]))
+		}
+		row := fmt.Sprintf("  (%q, [%s])", p.root, strings.Join(ops, ", "))
+		if !seen[row] {
+			seen[row] = true
+			rows = append(rows, row)
+		}
+	}
+	b.WriteString(strings.Join(rows, ",\n"))
+	if len(rows) > 0 {
+		b.WriteString("\n")
+	}
+	return b.String()
+}
+
 func lpGenerate(dir string) (string, []string) {
 	pk, err := lpLoad(dir)
 	if err != nil {
@@ -869,7 +911,17 @@ func lpGenerate(dir string) (string, []string) {
 	}
 	sel, cov1, e1 := lpExtract(pk, lpSelector)
 	zmq, cov2, e2 := lpExtract(pk, lpZmq)
+	ord, _, e3 := lpExtract(pk, lpOrder)
 	errs := append(e1, e2...)
+	known := map[string]bool{}
+	for _, e := range errs {
+		known[e] = true
+	}
+	for _, e := range e3 {
+		if !known[e] {
+			errs = append(errs, e)
+		}
+	}
 	if len(sel) == 0 {
 		errs = append(errs, "no entry point of the package operates on "+lpSelector.mutex)
 	}
@@ -892,6 +944,8 @@ func lpGenerate(dir string) (string, []string) {
 	b.WriteString("def selectorPaths : List Path := [\n" + lpLean(sel) + "]\n\n")
 	b.WriteString("/-- paths that operate on `RegProcessor.zmqMutex` -/\n")
 	b.WriteString("def zmqPaths : List Path := [\n" + lpLean(zmq) + "]\n\n")
+	b.WriteString("/-- both mutexes in one program, lock operations only (0 = `selectorMutex`, 1 = `zmqMutex`) -/\n")
+	b.WriteString("def lockOrderPaths : List (String × List (Nat × Op)) := [\n" + lpLeanOrder(ord) + "]\n\n")
 	b.WriteString("def selectorPrograms : List (List Op) := selectorPaths.map (·.ops)\n")
 	b.WriteString("def zmqPrograms : List (List Op) := zmqPaths.map (·.ops)\n\n")
 	b.WriteString("def coverage : List (String × Nat × Nat × Nat) := [\n")
